@@ -183,7 +183,10 @@ _GAMMA = (" The gammatone constructor's per-filter loop is under contract as a s
           "strictly positive half-width with every log / square-root argument in its domain (centre strictly inside supports_hz), _wrap_below iff "
           "some lower edge is negative, lists frozen into tuples, supports_hz = supports_ang in Hz.")
 EXTRA = {
-    "C02": _ACC + "frame_style, frame_length, frame_shift, sampling_rate, kaldi_shift, bank, includes_energy, frame_length_ms, frame_shift_ms.",
+    "C01": " The inherited FrameComputer.compute_full is under contract: exactly one frame_by_frame_calculation(self, signal) with the default chunk "
+           "size, result returned as is.",
+    "C02": " The per-frame summand is under contract at AST level: the constructor stores use_power and selects _power iff it is set (else _mag) by one "
+           "if / else after the flag is stored; _power is numpy.linalg.norm(x, ord=2) ** 2 and _mag is numpy.sum(numpy.abs(x))." + _ACC + "frame_style, frame_length, frame_shift, sampling_rate, kaldi_shift, bank, includes_energy, frame_length_ms, frame_shift_ms.",
     "C03": _ACC + "the short-integration computer's frame_style, frame_length, frame_shift, sampling_rate and the base class's frame_length_ms / frame_shift_ms.",
     "C04": _ACC + "`started` of both computers is the `_started` flag the method contracts set and reset.",
     "C05": _GAMMA + _ACC + "centers_hz (the inner vertices in order / the centres the constructor laid out), supports_hz (pair k = vertices k and k+2), num_filts, "
